@@ -174,6 +174,16 @@ def h_pure2(x, y, lim):
     xo = x >= limit
     return xo or y >= limit
 
+def h_run(x, y):
+    first = ev(('first', x))
+    second = ev(('second', y))
+    return '%s-%s' % (first, second)
+
+def h_run_swapped(x, y):
+    first = ev(('first', x))
+    second = ev(('second', y))
+    return '%s-%s' % (second, first)
+
 def h_stmtpred(x):
     t = ev(('pred', x))
     u = t[1] * 2
@@ -384,6 +394,12 @@ def c_pure2(a, b):
         return ev('out')
     return 'in'
 
+def c_run(a, b):
+    return [h_run(x, b) for x in [a, b, 3]]
+
+def c_run_swapped(a, b):
+    return [h_run_swapped(x, b) for x in [a, b, 3]]
+
 def c_quant(a, b):
     return all(h_stmtpred(x) for x in [a, b, 3] if x != 4)
 
@@ -583,7 +599,7 @@ def main():
         'c_plain': itertools.product(vals, vals), 'c_withifexp': [(v,) for v in vals],
         'c_alias': [(None, v) for v in vals],
         'c_copy': itertools.product(vals, vals), 'c_copy_later': itertools.product(vals, vals), 'c_copy_loop': itertools.product(vals, vals),
-        'c_copy_swap': itertools.product(vals, vals),
+        'c_copy_swap': itertools.product(vals, vals), 'c_run': itertools.product(vals, vals), 'c_run_swapped': itertools.product(vals, vals),
         'c_rng_swapped': itertools.product(vals, vals), 'c_closure': itertools.product(vals, vals), 'c_try_rest': [(v,) for v in vals], 'c_try_ret': [(v,) for v in vals], 'c_try_norets': [(v,) for v in vals], 'c_rng_self': itertools.product(vals, vals),
     }
     bad = 0
